@@ -68,6 +68,8 @@ pub const OPTS: &[Opt] = &[
     Opt { name: "tui-privacy-max-ttl", section: "tui", kind: Kind::Num, values: &["0", "1", "3", "20"], default: "" },
     Opt { name: "tui-custom-columns", section: "tui", kind: Kind::Str, values: &["holsravbwdt", "hosr", "holsravbwdtjgxiSPQTCNfFBDKM", "ho", "hlsravbwdt", "h", "oNKM"], default: "holsravbwdt" },
     Opt { name: "tui-timezone", section: "tui", kind: Kind::Str, values: &["UTC", "Europe/Berlin", "Asia/Tokyo"], default: "" },
+    // "@GEO@" stands for the database the harness wrote (see `geoip_file`)
+    Opt { name: "geoip-mmdb-file", section: "tui", kind: Kind::Str, values: &["@GEO@", "/nonexistent/tuisim-other.mmdb"], default: "" },
     Opt { name: "tui-locale", section: "tui", kind: Kind::Str, values: &["en", "fr", "de", "zh", "es"], default: "" },
     Opt { name: "source-address", section: "strategy", kind: Kind::Str, values: &["192.0.2.1", "192.0.2.77", "2001:db8:1::1"], default: "" },
     Opt { name: "interface", section: "strategy", kind: Kind::Str, values: &["eth0", "sim0"], default: "" },
@@ -135,14 +137,10 @@ impl GenConfig {
                         v.push(if val == "ipv4" { "-4".into() } else { "-6".into() });
                     } else {
                         v.push(format!("--{}", o.name));
-                        v.push(val.clone());
+                        v.push(self.subst(val));
                     }
                 }
             }
-        }
-        if let Some(g) = &self.geoip_file {
-            v.push("--geoip-mmdb-file".into());
-            v.push(g.clone());
         }
         if !self.theme_cli.is_empty() {
             v.push("--tui-theme-colors".into());
@@ -154,6 +152,14 @@ impl GenConfig {
         }
         v.extend(self.targets.iter().cloned());
         v
+    }
+
+    fn subst(&self, val: &str) -> String {
+        if val == "@GEO@" {
+            self.geoip_file.clone().unwrap_or_else(|| "/nonexistent/tuisim.mmdb".to_string())
+        } else {
+            val.to_string()
+        }
     }
 
     /// The configuration file.
@@ -168,7 +174,7 @@ impl GenConfig {
                 }
                 let Some(val) = &g.file else { continue };
                 match o.kind {
-                    Kind::Str => body.push_str(&format!("{} = \"{}\"\n", o.name, val)),
+                    Kind::Str => body.push_str(&format!("{} = \"{}\"\n", o.name, self.subst(val))),
                     Kind::Num | Kind::Flag => body.push_str(&format!("{} = {}\n", o.name, val)),
                 }
             }
@@ -222,15 +228,14 @@ pub fn gen_config(t: &mut Tape, targets: Vec<String>, geoip_file: Option<&str>, 
     if t.chance(800) {
         repair(&mut c, tui_bias);
     }
-    if let Some(g) = geoip_file {
-        if t.chance(600) {
-            c.geoip_file = Some(g.to_string());
-        }
-    } else if let Some(i) = OPTS.iter().position(|o| o.name == "tui-geoip-mode") {
-        // a geoip mode other than off needs a database file
-        c.given[i] = Given::default();
+    c.geoip_file = geoip_file.map(str::to_string);
+    let gi = opt_index("geoip-mmdb-file");
+    if geoip_file.is_some() && c.given[gi] == Given::default() && t.chance(500) {
+        // most traces with a database name it once, on the command line
+        c.given[gi].cli = Some("@GEO@".to_string());
     }
-    if c.geoip_file.is_none() {
+    // a geoip mode other than off needs a database file
+    if effective(&c, "geoip-mmdb-file").is_none() {
         let i = opt_index("tui-geoip-mode");
         c.given[i] = Given::default();
     }
